@@ -35,11 +35,19 @@ func (valdec sliceDecoder) Decode(dec *Decoder, p interface{}, tag byte) {
 	case TagEmpty:
 		setSliceHeader(reflect2.PtrOf(p), valdec.empty, 0)
 	case TagList:
-		count := dec.ReadInt()
+		count := dec.readCount()
 		slice := reflect2.PtrOf(p)
-		valdec.t.UnsafeGrow(slice, count)
+		n := dec.prealloc(count)
+		valdec.t.UnsafeGrow(slice, n)
 		dec.AddReference(p)
-		for i := 0; i < count; i++ {
+		for i := 0; i < count && dec.Error == nil; i++ {
+			if i == n {
+				// more elements than the input buffered at the start could justify: grow as they arrive
+				if n = n * 2; n > count {
+					n = count
+				}
+				valdec.t.UnsafeGrow(slice, n)
+			}
 			valdec.decodeElem(dec, valdec.et, valdec.t.UnsafeGetIndex(slice, i))
 		}
 		dec.Skip()
